@@ -43,7 +43,13 @@ pub fn check_side(n: &Net, side: u8, wt: bool) -> Result<SideWire, WireErr> {
                 continue;
             }
             if bytes.is_empty() {
-                continue; // opened, nothing written yet
+                // opened, nothing written yet - unless the sender has already let go of it: a stream that was
+                // opened (it took an id and the peer's credit) and abandoned without a byte does not begin with a
+                // stream type. Judged only while the connection is up (an error may interrupt setup anywhere).
+                if (d.send_dropped || d.finish_calls > 0 || !d.reset_calls.is_empty()) && n.closes.is_empty() && n.sides.iter().all(|s| s.fault.is_none() && s.pending_close.is_none()) {
+                    return Err(("uni_stream_without_type".into(), format!("uni stream {id} was opened and then {} without a single byte: it never got a stream type", if d.finish_calls > 0 { "finished" } else if !d.reset_calls.is_empty() { "reset" } else { "dropped" })));
+                }
+                continue;
             }
             let Some((ty, tn)) = varint::decode(bytes) else {
                 if d.finish_calls > 0 {
